@@ -87,6 +87,8 @@ def fmt_value(M, v, verb='v', plus=False):
 
 
 def fmt_plain(v, verb, M=None):
+    if isinstance(v, (SymName, SymRope)) and M is not None:
+        v = v.force(M)
     if is_sym(v):
         c = conc(v)
         if c is None:
